@@ -8,6 +8,7 @@ import Mathlib.Tactic.Linarith
 import Mathlib.Algebra.BigOperators.Ring.Finset
 import Mathlib.Data.Matrix.Basic
 import Mathlib.Data.Matrix.Mul
+import Mathlib.Analysis.SpecialFunctions.Log.Deriv
 /-! helper lemmas for C12: quadratic expansion of the weighted squared error, block-diagonal weights -/
 open Matrix
 namespace QM.C12
@@ -389,4 +390,73 @@ def expectedBranch : Mode → QGen.C12.Branch
   | .unbiasedInv => .invCov true
 
 end generated
+end QM.C12
+
+/-! ## definitions used in the statements of QProps/C12.lean (QProps holds theorems only) -/
+namespace QM.C12
+open QM
+
+section statementDefs
+variable {K : Type} [Field K] [LinearOrder K] {m nv : Nat}
+
+/-- every weight matrix in force is symmetric (the constructor / setter validate `is_hermitian`) -/
+def SymWeights (l : List (Sched K m nv × Option (Mat K m m))) : Prop :=
+  ∀ p ∈ l, (wmat p.2)ᵀ = wmat p.2
+
+/-- the weight matrices a mode string stands for: none (identity weights) for `identity`, the option's for
+`custom`, the symmetrised inverse-covariance matrices for the covariance modes -/
+def modeWeights (opt : Opt K m) (G : List (Mat K (m - 1) (m - 1))) : Option (List (Mat K m m)) :=
+  match opt.mode with
+  | .identity => none
+  | .custom => opt.weights
+  | .invSample | .invUnbiased | .unbiasedInv => some (G.map invCovWeight)
+
+/-- one outcome along a line: data `q`, probability `p`, gradient component `g = ∂_α p`, direction `d = (A h)_i` -/
+structure Pt where
+  q : ℝ
+  p : ℝ
+  g : ℝ
+  d : ℝ
+
+def qsOf (l : List Pt) : List ℝ := l.map (·.q)
+def psAt (l : List Pt) (t : ℝ) : List ℝ := l.map fun x => x.p + t * x.d
+def gsOf (l : List Pt) : List ℝ := l.map (·.g)
+def dsOf (l : List Pt) : List ℝ := l.map (·.d)
+/-- numpy's `log` values as the kernel receives them: `Real.log` of the clipped ratio -/
+noncomputable def logsAt (epsq epsp : ℝ) (l : List Pt) (t : ℝ) : List ℝ :=
+  l.map fun x => Real.log (logArg x.q (x.p + t * x.d) epsq epsp)
+
+/-- away from the clipping thresholds at parameter `t` -/
+def AwayAt (epsq epsp : ℝ) (l : List Pt) (t : ℝ) : Prop :=
+  ∀ x ∈ l, 0 < x.q ∧ epsq ≤ x.q ∧ 0 < x.p + t * x.d ∧ epsp < x.p + t * x.d ∧ epsp < x.q / (x.p + t * x.d)
+
+/-- the model's relative-entropy kernel with `np.log = Real.log`, along the line `p(t) = p + t d` -/
+noncomputable def valueAt (epsq epsp : ℝ) (l : List Pt) (t : ℝ) : ℝ :=
+  relEnt epsq epsp (qsOf l) (psAt l t) (logsAt epsq epsp l t)
+
+/-- one outcome's term of the model's `relative_entropy` kernel as a function of the predicted probability -/
+noncomputable def termAt (epsq epsp q : ℝ) (p : ℝ) : ℝ :=
+  relEnt epsq epsp [q] [p] [Real.log (logArg q p epsq epsp)]
+
+/-- every outcome is either skipped by the kernel (`q < eps_q`, e.g. an exactly-zero empirical entry) or away from
+all clipping thresholds -/
+def AwayOrSkipped (epsq epsp : ℝ) (l : List Pt) (t : ℝ) : Prop :=
+  ∀ x ∈ l, x.q < epsq ∨
+    (0 < x.q ∧ epsq ≤ x.q ∧ 0 < x.p + t * x.d ∧ epsp < x.p + t * x.d ∧ epsp < x.q / (x.p + t * x.d))
+
+noncomputable def kept (epsq : ℝ) (l : List Pt) : List Pt := l.filter fun x => decide (epsq ≤ x.q)
+
+/-- value of the WEIGHTED relative-entropy loss along a line: `Σ_j w_j · (kernel value of schedule j)`; `scheds` pairs each schedule's
+weight with its outcomes -/
+noncomputable def lossAt (epsq epsp : ℝ) (scheds : List (ℝ × List Pt)) (t : ℝ) : ℝ :=
+  (scheds.map fun s => s.1 * valueAt epsq epsp s.2 t).sum
+
+
+/-- `Σ_α h_α · column_α` of a list of (coefficient, column) pairs, all columns of length `n` -/
+def lincomb (n : Nat) : List (K × List K) → List K
+  | [] => List.replicate n 0
+  | (c, col) :: r => List.zipWith (· + ·) (col.map (c * ·)) (lincomb n r)
+
+
+end statementDefs
 end QM.C12
